@@ -75,7 +75,7 @@ std::string Op::brief() const {
     char buf[256];
     std::string s = opkind_name(kind);
     switch (kind) {
-    case OP_PARSE: snprintf(buf, sizeof buf, " u%d <- \"%s\"%s entry=%d mgr=%d place=%d", a, hexesc(text).c_str(), window >= 0 ? (" window=" + std::to_string(window)).c_str() : "", entry, mgr, placement); break;
+    case OP_PARSE: snprintf(buf, sizeof buf, " u%d <- \"%s\"%s entry=%d mgr=%d place=%d%s", a, hexesc(text).c_str(), window >= 0 ? (" window=" + std::to_string(window)).c_str() : "", entry, mgr, placement, c >= 0 ? (" [same buffer as op " + std::to_string(c) + "]").c_str() : ""); break;
     case OP_FREE: snprintf(buf, sizeof buf, " u%d entry=%d refree=%d", a, entry, refree); break;
     case OP_ADDBASE: snprintf(buf, sizeof buf, " u%d <- resolve(ref u%d, base u%d) opt=%d entry=%d mgr=%d", a, b, c, opt, entry, mgr); break;
     case OP_REMOVEBASE: snprintf(buf, sizeof buf, " u%d <- relativize(src u%d, base u%d) domainRoot=%d entry=%d mgr=%d", a, b, c, opt, entry, mgr); break;
